@@ -69,7 +69,10 @@ rc, st = sh("git -C /repo status --short")
 assert not st.strip(), "/repo is not clean: " + st
 rc, out = sh(f"git -C /repo apply {src}/patch.diff || git -C /repo apply -3 {src}/patch.diff")
 assert rc == 0, "patch does not apply to /repo: " + out
-meta["checks"] = {}
+if meta.get("checks"):
+    meta.setdefault("checks_history", []).append({"at_verif_commit": sh("git -C /verif log --format=%h -1")[1].strip() + " (before this run)", "checks": meta["checks"]})
+prev = dict(meta.get("checks") or {})
+meta["checks"] = {c: r for c, r in prev.items() if c not in checks}
 try:
     for c in checks:
         t = time.time()
